@@ -53,6 +53,12 @@ MAKE = {
     "f": lambda: 1.5,
     "L0": lambda: [],
     "LL": lambda: [[1], [2]],
+    "T0": lambda: (),
+    "TN": lambda: (Namespace(a=1),),
+    "TL": lambda: ([1], {"k": 2}),
+    "zero": lambda: 0,
+    "es": lambda: "",
+    "S0": lambda: set(),
 }
 
 
@@ -66,7 +72,7 @@ def code(v) -> str:
     for c, mk in MAKE.items():
         w = mk()
         if type(w) is type(v) and w == v and c not in ("none", "true", "false"):
-            if c in ("LN", "LM", "LD"):
+            if c in ("LN", "LM", "LD", "TN"):
                 if [type(x) for x in w] != [type(x) for x in v]:
                     continue
             return c
@@ -309,7 +315,7 @@ def _unrename(ns, inv):
 
 
 NAMES_RANDOM = ["a", "b", "c"] + CLASH
-LEAVES = ["i1", "i2", "none", "L1", "T1", "LN", "LM", "s", "f", "L0", "LL"]
+LEAVES = ["i1", "i2", "none", "L1", "T1", "LN", "LM", "s", "f", "L0", "LL", "T0", "TN", "TL", "zero", "es", "false", "S0"]
 
 
 def random_value(rnd, depth=0):
